@@ -21,6 +21,7 @@ import os
 import random
 import shutil
 import tempfile
+import time
 import warnings
 
 import numpy as np
@@ -191,18 +192,23 @@ def spec_tri(spec):
 
 
 # ------------------------------------------------------------------------------ strict comparison
+def meta_key(m):
+    """Python's == on Metadata as a hashable key built from builtin values only (7 == 7.0 == hash-equal, dict order
+    irrelevant) -- independent of Metadata.__hash__ / __eq__ and of object identity"""
+    return (m.risk_basis, m.country, m.currency, m.reinsurance_basis, m.loss_definition, m.per_occurrence_limit,
+            frozenset(m.details.items()), frozenset(m.loss_details.items()))
+
+
 def slice_groups(t):
     """Independent of Metadata.__hash__ / Triangle.slices: the ==-distinct metadata of the cells in first-occurrence
     order (representative = the first cell's Metadata object) with their cells in triangle order."""
-    groups = []
+    groups = {}
     for c in (t.cells if hasattr(t, "cells") else t):
-        for g in groups:
-            if g[0] == c.metadata:
-                g[1].append(c)
-                break
-        else:
-            groups.append((c.metadata, [c]))
-    return groups
+        k = meta_key(c.metadata)
+        if k not in groups:
+            groups[k] = (c.metadata, [])
+        groups[k][1].append(c)
+    return list(groups.values())
 
 
 def canon_retag(t, ordered=True):
@@ -211,14 +217,13 @@ def canon_retag(t, ordered=True):
     metadata whenever Python-equal metadata are identical, i.e. in every regular case)."""
     from harness.coqterm import canon_meta
 
-    reps = slice_groups(t)
+    reps = {meta_key(m): m for m, _ in reversed(slice_groups(t))}
     out = []
     for c, cc in zip((t.cells if hasattr(t, "cells") else t), canon_tri(t, ordered=ordered)):
         cc = list(cc)
         if cc[0] == "Cell":
             cc[0] = "CumulativeCell"
-        rep = next(m for m, _ in reps if m == c.metadata)
-        cc[5] = canon_meta(rep, ordered)
+        cc[5] = canon_meta(reps[meta_key(c.metadata)], ordered)
         out.append(tuple(cc))
     return tuple(out)
 
@@ -759,6 +764,167 @@ def extra_oracle_cases(rng):
     return out
 
 
+# ------------------------------------------------------------------------------ large stream (family Q)
+def month_end_of(k):
+    """last day of month index k (k = 12 * year + month - 1)"""
+    import calendar
+
+    y, m = divmod(k, 12)
+    return D(y, m + 1, calendar.monthrange(y, m + 1)[1])
+
+
+def big_triangle(quick=True, seed=1):
+    """ONE big triangle crossing the size thresholds of family Q: slices of 600 (> 513, followed by another slice),
+    256 / 512 / 513 / 514 / 768 / 1025 cells (boundaries at multiples of 256), a slice with one cell in each of 1100
+    distinct months, a row of 70 evaluation dates, integers beyond 2**53 as values / ids / limits, sample arrays of
+    4096-20000 (thorough: 10**5) items incl. reversed / strided / Fortran views"""
+    from bermuda import CumulativeCell, Metadata, Triangle
+
+    rng = np.random.default_rng(seed)
+    cells = []
+
+    def grid(n, m, base_y=2000, lags=24):
+        out = []
+        p = 0
+        while len(out) < n:
+            for lag in range(lags):
+                if len(out) == n:
+                    break
+                k = 12 * base_y + p
+                out.append(CumulativeCell(period_start=D(k // 12, k % 12 + 1, 1), period_end=month_end_of(k),
+                                          evaluation_date=month_end_of(k + lag),
+                                          values={"paid_loss": int(len(out)), "earned_premium": 1000.5 + p}, metadata=m))
+            p += 1
+        return out
+
+    sizes = [600, 256, 512, 513, 514, 768, 1025] + ([] if quick else [2049, 3100])
+    for i, n in enumerate(sizes):
+        cells += grid(n, Metadata(country="US", per_occurrence_limit=2**53 + 1 + i, details={"id": 20240000001 + i, "big": 2**60 + i}))
+    m_months = Metadata(country="DE", details={"id": 2**53 + 1})
+    for k in range(1100):                                   # > 1024 distinct months, pre-1970 included
+        kk = 12 * 1905 + k
+        cells.append(CumulativeCell(period_start=D(kk // 12, kk % 12 + 1, 1), period_end=month_end_of(kk), evaluation_date=month_end_of(kk),
+                                    values={"reported_loss": 2**53 + 1 + k, "ids": np.array([2**53 + 1 + k, -(2**62) - k], dtype=np.int64)},
+                                    metadata=m_months))
+    m_row = Metadata(country="FR", loss_details={"layer": 2**53 + 3})
+    for lag in range(70):                                   # a row of > 65 cells, > 64 distinct evaluation dates
+        cells.append(CumulativeCell(period_start=D(2010, 1, 1), period_end=D(2010, 12, 31), evaluation_date=month_end_of(12 * 2010 + 11 + lag),
+                                    values={"paid_loss": 2.5 * lag, "n": None}, metadata=m_row))
+    m_arr = Metadata(country="JP")
+    ns = [4096, 5000, 20000] if quick else [4096, 5000, 20000, 100000]
+    for j, n in enumerate(ns):
+        f = rng.normal(1000.0, 50.0, n)
+        i64 = rng.integers(-2**62, 2**62, 2 * n, dtype=np.int64)
+        cells.append(CumulativeCell(period_start=D(2015 + j, 1, 1), period_end=D(2015 + j, 12, 31), evaluation_date=D(2015 + j, 12, 31),
+                                    values={"f_rev": f[::-1], "i_strided": i64[::2], "f_fortran": np.asfortranarray(f * 2.0)}, metadata=m_arr))
+    cells.append(CumulativeCell(period_start=D(2030, 1, 1), period_end=D(2030, 12, 31), evaluation_date=D(2030, 12, 31),
+                                values={"a": 1}, metadata=Metadata(country="ZZ")))
+    order = rng.permutation(len(cells))
+    with warnings.catch_warnings():
+        warnings.simplefilter("ignore")
+        return Triangle([cells[i] for i in order])
+
+
+def many_metadata_triangle(n, offset=0):
+    """n slices of one cell each, every Metadata distinct (ids beyond 2**53)"""
+    from bermuda import CumulativeCell, Metadata, Triangle
+
+    return Triangle([CumulativeCell(period_start=D(2020, 1, 1), period_end=D(2020, 12, 31), evaluation_date=D(2020, 12, 31),
+                                    values={"a": i}, metadata=Metadata(details={"id": 2**53 + 1 + offset + i, "tag": f"m{(offset + i) % 97}"}))
+                     for i in range(n)])
+
+
+def large_oracle(t, tmpdir):
+    """the round-trip oracle without the quadratic parts: export (string, dict), plain-parser view judged on an
+    independent grouping, two readers (string, path), strict comparison, re-export"""
+    from bermuda import Triangle
+    from bermuda.io.json import json_string_to_triangle
+
+    with warnings.catch_warnings():
+        warnings.simplefilter("ignore")
+        try:
+            text = t.to_json()
+            tree = json.loads(text)
+            if t.to_dict() != tree and json.loads(json.dumps(t.to_dict())) != tree:
+                return {"stage": "export", "detail": "to_dict and to_json disagree"}
+        except Exception as ex:  # noqa: BLE001
+            return {"stage": "export", "raised": f"{type(ex).__name__}: {ex}"[:300]}
+        pv = plain_view_ok(t, text)
+        if pv:
+            return {"stage": "plain-parser view of the text", "detail": pv}
+        want = canon_retag(t, ordered=True)
+        p = os.path.join(tmpdir, "large.json")
+        open(p, "w").write(text)
+        for rn, r in (("json_string_to_triangle", lambda: json_string_to_triangle(text)), ("from_json(path)", lambda: Triangle.from_json(p))):
+            try:
+                got = r()
+            except Exception as ex:  # noqa: BLE001
+                return {"stage": f"import {rn}", "raised": f"{type(ex).__name__}: {ex}"[:300]}
+            g = canon_tri(got, ordered=True)
+            if g != want:
+                diff = next((i for i, (a, b) in enumerate(zip(g, want)) if a != b), None)
+                return {"stage": f"import {rn}", "detail": "cells differ", "first_diff_index": diff,
+                        "got": (repr(g[diff])[:600] if diff is not None else f"{len(g)} cells"),
+                        "want": (repr(want[diff])[:600] if diff is not None else f"{len(want)} cells")}
+        if json.loads(got.to_json()) != tree:
+            return {"stage": "re-export of the imported triangle differs from the first export"}
+    return None
+
+
+def large_stream(ctx, tmpdir):
+    """Family Q.  Python-side oracles only (no Coq literals: the theorems are size independent, it is the
+    correspondence that samples).  Process-wide state (pools, ring caches) is exposed by re-checking EARLY small
+    cases AFTER the large work: their specification, canonical form and exported text were recorded before."""
+    from bermuda.io.json import json_string_to_triangle
+
+    quick = ctx.quick
+    fails = []
+    early = []
+    for t, info, desc in battery()[:6] + mixed_rep_cases(random.Random(3), 2):
+        with warnings.catch_warnings():
+            warnings.simplefilter("ignore")
+            early.append((desc, tri_spec(t), canon_retag(t, ordered=True), t.to_json()))
+    t0 = time.time()
+    big = big_triangle(quick, seed=ctx.seed)
+    r = large_oracle(big, tmpdir)
+    ctx.count(evaluations=len(big), traces=1)
+    ctx.hist(f"large:big-triangle-{len(big)}-cells-{len(slice_groups(big))}-slices")
+    if r:
+        fails.append(("big triangle", {"generator": "big_triangle", "quick": quick, "seed": ctx.seed, "cells": len(big)}, r))
+    for k, n in enumerate([2200] if quick else [2200, 4300]):          # > 2048 / > 4200 distinct Metadata in this process
+        many = many_metadata_triangle(n, offset=10000 * k)
+        r = large_oracle(many, tmpdir)
+        ctx.count(evaluations=n, traces=1)
+        ctx.hist(f"large:{n}-distinct-metadata")
+        if r:
+            fails.append((f"{n} slices of one cell", {"generator": "many_metadata_triangle", "n": n, "offset": 10000 * k}, r))
+    # re-check of the earliest cases after the large work
+    for desc, spec, canon, text in early:
+        with warnings.catch_warnings():
+            warnings.simplefilter("ignore")
+            rebuilt = spec_tri(spec)
+            r = None
+            if tri_spec(rebuilt) != spec:
+                bad = next(i for i, (a, b) in enumerate(zip(tri_spec(rebuilt), spec)) if a != b)
+                r = {"stage": "a triangle rebuilt from its own specification after the large work does not carry the cells it "
+                              "was given", "index": bad, "got_meta": tri_spec(rebuilt)[bad]["meta"], "want_meta": spec[bad]["meta"]}
+            elif canon_retag(rebuilt, ordered=True) != canon or rebuilt.to_json() != text:
+                r = {"stage": "early case rebuilt after the large work: canonical form / exported text changed"}
+            elif canon_tri(json_string_to_triangle(text), ordered=True) != canon:
+                r = {"stage": "text exported BEFORE the large work no longer loads to the same cells"}
+            else:
+                r = oracle(rebuilt, tmpdir, full=False)
+        ctx.count(evaluations=4)
+        if r:
+            fails.append((f"re-check of early case {desc} after the large work", {"generator": "early-recheck", "case": desc}, r))
+    ctx.hist("large:early-cases-rechecked", len(early))
+    ctx.log(f"large stream: {len(big)}-cell triangle, {2200 if quick else 6500} distinct metadata, {len(early)} early cases re-checked, "
+            f"{len(fails)} failures, {time.time() - t0:.1f}s")
+    for what, params, r in fails[:4]:
+        ctx.violation("impl-violation", f"large stream: {what}: {r}", {"large_stream": params, "failure": r}, found_input=True)
+    return fails
+
+
 # ------------------------------------------------------------------------------ Coq correspondence
 HEADER = """From Coq Require Import ZArith List Bool.
 From Bermuda Require Import Model.Base Model.Json.
@@ -920,6 +1086,9 @@ def run(ctx):
         "np.array(list) modelled for all-int (int64), int/float mixes and [] (float64); other list shapes are outside the model",
         "hypotheses of C07_roundtrip: hook-inert keys (N1), non-empty int64 arrays (N2), 1000 <= year (N3), "
         "Python-equal metadata identical and slices contiguous (N4, by design)",
+        "large stream (family Q: 5000+-cell triangle, 2200+ distinct Metadata, 4096-10**5-sample arrays, ints beyond 2**53, "
+        "early cases re-checked after the large work) is judged by the Python-side oracles only -- no Coq literals: the "
+        "theorems are size independent, it is the correspondence that samples",
     ]
     tmpdir = tempfile.mkdtemp(prefix="c07-", dir=str(ctx.build))
     try:
@@ -1007,6 +1176,7 @@ def run(ctx):
                           {"mismatches": mism[:5]}, found_input=False)
         # 6. probes
         probes(ctx, tmpdir)
+        large_stream(ctx, tmpdir)
         hfails = hardening_checks(ctx, tmpdir)
         ctx.log(f"entry-point hardening checks: {len(hfails)} failures")
     finally:
@@ -1068,6 +1238,23 @@ STD_DESCRIPTION = {
 
 
 def replay(ctx, data):
+    if data.get("large_stream"):
+        class _L:
+            quick = data["large_stream"].get("quick", True)
+            seed = data["large_stream"].get("seed", 1)
+            def count(self, *a, **k): pass
+            def hist(self, *a, **k): pass
+            def log(self, *a): print(*a)
+            def violation(self, kind, what, *a, **k): print("FAILS:", what[:1200])
+        tmp = tempfile.mkdtemp(prefix="c07-replay-")
+        try:
+            print("re-running the large stream (generator parameters:", data["large_stream"], ")")
+            fails = large_stream(_L(), tmp)
+        finally:
+            shutil.rmtree(tmp, ignore_errors=True)
+        if not fails:
+            print("large stream: every round trip and every early-case re-check OK")
+        return 1 if fails else 0
     if data.get("entry_point_check"):
         class _C:
             def count(self, *a, **k): pass
